@@ -20,8 +20,9 @@ import traceback
 from typing import Any, Dict, List, Optional
 
 ROOT = os.path.dirname(os.path.dirname(os.path.abspath(__file__)))
-EVIDENCE_DIR = os.path.join(ROOT, "evidence")
-REPLAY_DIR = os.path.join(ROOT, "replays")
+_OUT = os.environ.get("XSM_OUT_DIR")  # sensitivity runs redirect evidence + replays to scratch
+EVIDENCE_DIR = os.path.join(_OUT, "evidence") if _OUT else os.path.join(ROOT, "evidence")
+REPLAY_DIR = os.path.join(_OUT, "replays") if _OUT else os.path.join(ROOT, "replays")
 
 
 class Hang(BaseException):
